@@ -709,6 +709,11 @@ func body(t *testing.T, c *vk.Ctx) {
 			c.Sample(map[string]any{"scenario": sc.String(), "executions": ex.Executions, "max_steps": ex.MaxSteps, "default_schedule": r1.Trace})
 		}
 	}
+	if c.Shard == 0 {
+		// free-running part, after the scheduled scenarios of this process (its pools' goroutines must not be around
+		// while the controlled scheduler runs)
+		partQueueBound(t, c)
+	}
 }
 
 func judge(c *vk.Ctx, sc scenario, r *sched.Result) {
@@ -773,10 +778,21 @@ func replay(t *testing.T, c *vk.Ctx) {
 			Choices  []int    `json:"choices"`
 			Part     string   `json:"part"`
 			K        int      `json:"k"`
+			PoolSize int      `json:"pool_send_queue_size"`
+			Arg      int      `json:"add_stream_queue_size"`
 		} `json:"case"`
 	}
 	if err := vk.ReadJSON(c.Replay, &rf); err != nil {
 		c.Broken("replay file: %v", err)
+		return
+	}
+	if rf.Case.Part == "queuebound" {
+		c.Distinct("distinct", "replay-queuebound")
+		c.Count("executions", 2)
+		cs := qCase{Part: "queuebound", PoolSize: rf.Case.PoolSize, Arg: rf.Case.Arg}
+		if key, what := queueBoundCase(cs); key != "" {
+			c.Violation(key, "replayed: "+what, cs)
+		}
 		return
 	}
 	if rf.Case.Part == "receive" {
